@@ -11,14 +11,17 @@ CHECKS = {
         text='Lean: Spec.PyCore gives a first-order core of Python (ints, bools, strings, None; assignment, if, while/else, break/continue, '
              'print, assert, raise, global, calls of module-level functions) a fuel-indexed definitional semantics whose observable is '
              'the printed lines, how the run ends and the final globals. Proved for every module, nesting depth and fuel, through loops '
-             'and calls: remove_pass, remove_literal_statements (with its __doc__ guard), remove_explicit_return_none, '
-             'remove_builtin_exception_brackets, remove_object_base and every pipeline of them (transformM with the other switches off) '
-             'leave the observable unchanged (strong induction on fuel, mutual structural induction on statements). Ties: the semantics '
-             'is validated against CPython exec on generated core programs; the transform model is compared with minify() on them; '
-             'differential execution of original vs minified (stdout, exception type / exit status, public namespace) on generated '
-             'runnable programs and directed corner programs over subsets of the thirteen default-on switches decides the rest on the real code.',
-        note='PARTIAL: constant folding, renaming, hoisting, import combining, annotation removal and positional-only conversion have no '
-             'PyCore theorem (their structural contracts are C02-C07, C09, C10); outside the PyCore fragment the property rests on the oracle.',
+             'and calls (strong induction on fuel, mutual structural induction on statements): remove_pass, remove_literal_statements '
+             '(with its __doc__ guard), remove_explicit_return_none, remove_builtin_exception_brackets and remove_object_base leave the '
+             'observable unchanged; constant folding (for ANY oracle, via a homomorphism theorem on expressions and the folding-step '
+             'lemma over PyInt) and positional-only conversion refine it (identical unless the original run leaves the core); so does '
+             'every pipeline of these seven in transformM. Ties: the semantics is validated against CPython exec on generated core '
+             'programs; the transform model is compared with minify() on them; differential execution of original vs minified (stdout, '
+             'exception type / exit status, public namespace) on generated runnable programs, directed scope programs and corner '
+             'programs over subsets of the thirteen default-on switches decides the rest on the real code.',
+        note='PARTIAL: renaming, hoisting, import combining and annotation removal have no PyCore theorem (their structural contracts '
+             'are C02-C06, C09, C10); outside the PyCore fragment the property rests on the oracle. Documented-unsafe corners of '
+             'default options are known findings F12a-d.',
         technique='Lean 4 proof of behaviour preservation over a definitional core semantics + spec validation against CPython + differential execution of the real minifier',
         ref='§6 C01'),
     'C17': dict(
